@@ -1,11 +1,12 @@
 import RV.Drive.Decisions
 import RV.Drive.Detectors
 import RV.Drive.Mmae
+import RV.Drive.Angles
 namespace RV.Drive
 open RV
 
 def handlers : List (String → Option (P String)) :=
-  [RV.Drive.Decisions.handle, RV.Drive.Detectors.handle, RV.Drive.Mmae.handle]
+  [RV.Drive.Decisions.handle, RV.Drive.Detectors.handle, RV.Drive.Mmae.handle, RV.Drive.Angles.handle]
 
 def step (line : String) : String :=
   match tokens line with
